@@ -46,13 +46,17 @@ def lock_analysis_context(repo, res):
     (a member changed its type, a field of the model is gone) the lock analysis still runs, with the misfit recorded"""
     from frontend import AnalysisIncomplete
     try:
-        return analysis(repo)
+        an = analysis(repo)
+        if not getattr(an, 'broken', None):
+            return an
+        why = '; '.join(an.broken.values())
     except AnalysisIncomplete as e:
         if 'G-ANCHOR' not in str(e):
             raise
-        an = analysis(repo, lenient=True)
-        res.assumptions.append('container model anchors do not fit this tree (%s): only the lock discipline is decided here' % str(e)[:200])
-        return an
+        why = str(e)
+    an = analysis(repo, lenient=True)
+    res.assumptions.append('container model anchors do not fit this tree (%s): only the lock discipline is decided here' % why[:200])
+    return an
 
 
 def c06(tier, repo):
@@ -191,7 +195,7 @@ c04 = _simple('C04', rules_ttl.rule_c04,
               '"not purged" implies live; R-REFILE-ON-UPDATE (every write re-files the entry under its new deadline). Not decided: the '
               'induction from these clauses to the behavioural statement.',
               ['steady_clock is monotone', 'RI at entry (inductive hypothesis)'],
-              {'R-LIVE-GUARD': 20, 'R-PURGE-FIRST': 20, 'R-PURGE-SHAPE': 20, 'R-REFILE-ON-UPDATE': 20, 'ORD-WITNESS': 10})
+              {'R-LIVE-GUARD': 14, 'R-PURGE-FIRST': 20, 'R-PURGE-SHAPE': 20, 'R-REFILE-ON-UPDATE': 20, 'ORD-WITNESS': 10})
 c05 = _simple('C05', rules_ttl.rule_c05,
               'Structural clauses of C05 (DESIGN.md 6.C05): R-DEADLINE-PROV (the term stored as deadline and used as ttl key is now + d with '
               'now the call\'s single clock sample and d the ttl in force: call parameter / element ttl for tlru, configured field otherwise), '
